@@ -1,6 +1,7 @@
 package props
 
 import (
+	"bytes"
 	"context"
 	"errors"
 	"fmt"
@@ -480,7 +481,9 @@ func c20AcceptRun(c c20AcceptCase) Verdict {
 		cl.Write([]byte("QUIT\r\n"))
 		var got []byte
 		ok := hub.WaitUntil(func() bool {
-			return cl.PendingInLocked() >= len("220 srv ESMTP Service Ready\r\n221 2.0.0 Bye\r\n")
+			// the greeting and the answer to QUIT, whatever their wording
+			in := cl.PeekInLocked()
+			return bytes.HasPrefix(in, []byte("220 ")) && bytes.Contains(in, []byte("\r\n221 ")) && bytes.HasSuffix(in, []byte("\r\n"))
 		}, harness.Watchdog)
 		got = cl.TakeAll()
 		if !ok || !strings.HasPrefix(string(got), "220 ") || !strings.Contains(string(got), "221 ") {
